@@ -56,6 +56,27 @@ CHECKS = {
                       "even with the collector off are not judged here",
         "assumptions": ["H1 stamps are maintained by the feature-guarded hook only and do not change behaviour (2454 tests pass with the feature on)"],
     },
+    "C11": {
+        "engines": NATIVE,
+        "level": "exploration",
+        "rule": "histories on one interpreter: a dead run (26 nesting kinds x 3 fault kinds, at script top level, inside a function and "
+                "as a module body; 7 stalled runs - unanswered order, never-settling promise, imports never supplied, syntax error, "
+                "unhandled rejections -; and runs abandoned by the host after s steps, for EVERY s of each of 26 programs in the "
+                "thorough tier / in both tiers) or a random sequence of 2-3 such runs, followed by 8 observer programs "
+                "(probing every name a dead run declared, re-declaration, completions through finally, labelled loops, generators, "
+                "async functions, modules, awaits, a host order). A history is non-trivial when the dead run really ended the way the "
+                "history says; histories are distinct by construction",
+        "exhaustive": "every abandonment step of the 26 nesting programs",
+        "floor": {"quick": 300, "thorough": 1000},
+        "technique": "runtime monitoring: metamorphic oracle (observer on reused vs fresh interpreter) plus H4 quiescence summary after "
+                     "every observer, over enumerated crash points",
+        "level_text": "After every dead history each observer must yield exactly the outcome, initial call depth and quiescence "
+                      "summary (env is global, no env guards, empty call stack, no VM, no orders, no waiters, no pending program) that it "
+                      "yields on a fresh interpreter.",
+        "level_note": "dead runs use block/function-scoped declarations under unique names so that any visible difference is a leak; "
+                      "deliberate global effects (top-level var/function, globalThis writes) are not generated",
+        "assumptions": ["observers cover the state a later program can see; residue that no observer reads and H4 does not report is out of reach"],
+    },
     "C13": {
         "engines": {"quick": ["native", "asan", "miri"], "thorough": ["native", "asan", "miri"]},
         "optional_engines": ["asan", "miri"],
